@@ -11,6 +11,7 @@ import (
 	"fmt"
 	"go/token"
 	"go/types"
+	"strings"
 
 	"golang.org/x/tools/go/ssa"
 )
@@ -498,8 +499,10 @@ func c08Comparator(c *Ctx) {
 				}
 			case *ssa.Call:
 				nm := calleeName(k)
-				if nm == "(time.Time).Before" || nm == "(time.Time).After" || nm == "(time.Time).Equal" {
-					x, y, pos, what = k.Call.Args[0], k.Call.Args[1], c.pos(k), nm
+				if nm == "(time.Time).Before" || nm == "(time.Time).After" || nm == "(time.Time).Equal" || nm == "(time.Time).Compare" || strings.HasPrefix(nm, "cmp.Compare") {
+					if len(k.Call.Args) == 2 {
+						x, y, pos, what = k.Call.Args[0], k.Call.Args[1], c.pos(k), nm
+					}
 				}
 			}
 			if x == nil {
@@ -537,6 +540,28 @@ func c08Comparator(c *Ctx) {
 				}
 			}
 		}
+	}
+	// the three-way form: cmp.Or(cmp.Compare(next.MaxTXID, curr.MaxTXID), …) > 0
+	for _, k := range calls(fn) {
+		call, isCall := k.(*ssa.Call)
+		if !isCall || !strings.HasPrefix(calleeName(call), "cmp.Compare") || len(call.Call.Args) != 2 {
+			continue
+		}
+		fx, px := fieldOf(call.Call.Args[0])
+		fy, py := fieldOf(call.Call.Args[1])
+		if fx != "FileInfo.MaxTXID" || fy != "FileInfo.MaxTXID" || px == nil || py == nil {
+			continue
+		}
+		// positive when next reaches further, and the function returns "… > 0"
+		pos := false
+		for _, r := range returns(fn) {
+			for _, o := range origins(retOperand(r, 0)) {
+				if b, ok := o.(*ssa.BinOp); ok && b.Op == token.GTR && vConstInt(0)(b.Y) {
+					pos = true
+				}
+			}
+		}
+		okDir = pos && px == fn.Params[1]
 	}
 	c.check(okDir, rule, fnName(fn)+": better means next.MaxTXID > curr.MaxTXID", c.P.Pos(fn.Pos()), "direction matches", "the reach comparison is inverted or missing")
 }
